@@ -730,3 +730,252 @@ Proof.
   split; [apply Z.eqb_eq; exact Ha|].
   apply Forall_forall. intros q Hq. rewrite forallb_forall in Hb. apply Z.leb_le. exact (Hb q Hq).
 Qed.
+(** * The payday rule (GetPeriodLength) *)
+Section Calendar.
+#[local] Ltac Zify.zify_post_hook ::= Z.div_mod_to_equations.
+
+(* civil_from_days is a right inverse of days_from_civil, and yields a month in
+   1..12 and a day in 1..31 — for every day number *)
+Lemma civil_roundtrip : forall z y m d, civil_from_days z = (y, m, d) ->
+  days_from_civil y m d = z /\ 1 <= m <= 12 /\ 1 <= d <= 31.
+Proof.
+  intros z y m d H. unfold civil_from_days in H. cbv zeta in H.
+  set (z' := z + 719468) in *.
+  set (era := z' / 146097) in *.
+  set (doe := z' - era * 146097) in *.
+  set (yoe := (doe - doe / 1460 + doe / 36524 - doe / 146096) / 365) in *.
+  set (doy := doe - (365 * yoe + yoe / 4 - yoe / 100)) in *.
+  set (mp := (5 * doy + 2) / 153) in *.
+  assert (Hdoe : 0 <= doe < 146097) by (subst doe era; lia).
+  assert (Hyoe : 0 <= yoe <= 399) by (subst yoe; lia).
+  assert (Hdoy : 0 <= doy <= 365) by (subst doy yoe; lia).
+  assert (Hmp : 0 <= mp <= 11) by (subst mp; lia).
+  destruct (Z.ltb_spec mp 10) as [Hm|Hm];
+    pose proof (f_equal (fun p => fst (fst p)) H) as Hy; pose proof (f_equal (fun p => snd (fst p)) H) as Hmm;
+    pose proof (f_equal snd H) as Hd; cbn [fst snd] in Hy, Hmm, Hd; clear H; subst y m d.
+  - destruct (Z.leb_spec (mp + 3) 2); [lia|].
+    unfold days_from_civil. cbv zeta.
+    destruct (Z.leb_spec (mp + 3) 2); [lia|]. destruct (Z.ltb_spec 2 (mp + 3)); [|lia].
+    replace (mp + 3 - 3) with mp by lia.
+    assert (E1 : (yoe + era * 400) / 400 = era) by lia. rewrite E1.
+    replace (yoe + era * 400 - era * 400) with yoe by lia.
+    split; [|split; [lia|]].
+    + subst doy. lia.
+    + subst mp. lia.
+  - destruct (Z.leb_spec (mp - 9) 2); [|lia].
+    unfold days_from_civil. cbv zeta.
+    destruct (Z.leb_spec (mp - 9) 2); [|lia]. destruct (Z.ltb_spec 2 (mp - 9)); [lia|].
+    replace (mp - 9 + 9) with mp by lia.
+    replace (yoe + era * 400 + 1 - 1) with (yoe + era * 400) by lia.
+    assert (E1 : (yoe + era * 400) / 400 = era) by lia. rewrite E1.
+    replace (yoe + era * 400 - era * 400) with yoe by lia.
+    split; [|split; [lia|]].
+    + subst doy. lia.
+    + subst mp. lia.
+Qed.
+
+Lemma some_eq : forall (a b : Z), Some a = Some b -> a = b.
+Proof. intros a b H. congruence. Qed.
+
+Lemma dfc_day : forall y m d, days_from_civil y m d = days_from_civil y m 1 + (d - 1).
+Proof. intros. unfold days_from_civil. cbv zeta. lia. Qed.
+
+Ltac dfc_lia := unfold days_from_civil; cbv zeta; cbn -[Z.div Z.mul Z.add Z.sub]; lia.
+
+(* first day of month number mi (months counted from year 0: mi = 12*year + month - 1) *)
+Definition month_start (mi : Z) : Z := days_from_civil (mi / 12) (mi mod 12 + 1) 1.
+
+Lemma month_start_step : forall mi, 28 <= month_start (mi + 1) - month_start mi <= 31.
+Proof.
+  intros mi. unfold month_start.
+  assert (mi mod 12 = 0 \/ mi mod 12 = 1 \/ mi mod 12 = 2 \/ mi mod 12 = 3 \/ mi mod 12 = 4 \/ mi mod 12 = 5 \/
+          mi mod 12 = 6 \/ mi mod 12 = 7 \/ mi mod 12 = 8 \/ mi mod 12 = 9 \/ mi mod 12 = 10 \/ mi mod 12 = 11) as C by lia.
+  destruct C as [C|[C|[C|[C|[C|[C|[C|[C|[C|[C|[C|C]]]]]]]]]]].
+  all: try (match type of C with _ = ?j =>
+              let a := eval vm_compute in (j + 1) in
+              let b := eval vm_compute in (j + 2) in
+              assert (E1 : (mi + 1) / 12 = mi / 12) by lia;
+              assert (E2 : (mi + 1) mod 12 + 1 = b) by lia;
+              assert (E3 : mi mod 12 + 1 = a) by lia;
+              rewrite E1, E2, E3; generalize (mi / 12); intros y; dfc_lia
+            end).
+  assert (E1 : (mi + 1) / 12 = mi / 12 + 1) by lia.
+  assert (E2 : (mi + 1) mod 12 + 1 = 1) by lia.
+  assert (E3 : mi mod 12 + 1 = 12) by lia. rewrite E1, E2, E3.
+  generalize (mi / 12); intros y; dfc_lia.
+Qed.
+
+Lemma month_start_mono : forall k mi, 0 <= k -> month_start mi + 28 * k <= month_start (mi + k).
+Proof.
+  intros k mi Hk. revert mi. pattern k. apply natlike_ind; [| |exact Hk].
+  - intros mi. replace (mi + 0) with mi by lia. lia.
+  - intros x Hx IH mi. specialize (IH mi). pose proof (month_start_step (mi + x)) as S.
+    replace (mi + Z.succ x) with (mi + x + 1) by lia. lia.
+Qed.
+
+(* a lock-up of at least one month is strictly positive, for every block time *)
+Theorem period_length_pos : forall now months len, 1 <= months ->
+  get_period_length now months = Some len -> 28 * 86400 * (months - 1) < len.
+Proof.
+  intros now months len Hm H. unfold get_period_length in H.
+  destruct (Z.ltb_spec months 0); [lia|]. destruct (Z.eqb_spec months 0); [lia|].
+  destruct (civil_from_days (now / DAY)) as [[y m] d] eqn:C.
+  destruct (civil_roundtrip _ _ _ _ C) as [R [Hmr Hdr]].
+  unfold DAY, PAY_SECS in *.
+  set (days := now / 86400) in *. set (sod := now mod 86400) in *.
+  assert (Hnow : now = days * 86400 + sod /\ 0 <= sod < 86400) by (subst days sod; lia).
+  rewrite dfc_day in R.
+  assert (M0 : month_start (12 * y + (m - 1)) = days_from_civil y m 1).
+  { unfold month_start. assert ((12 * y + (m - 1)) / 12 = y) as -> by lia.
+    assert ((12 * y + (m - 1)) mod 12 + 1 = m) as -> by lia. reflexivity. }
+  destruct ((d <? 15) || ((d =? 15) && (sod / 3600 <? 14))) eqn:E; apply some_eq in H; subst len.
+  - fold (month_start (12 * y + (m - 1) + months + 0)).
+    rewrite dfc_day. fold (month_start (12 * y + (m - 1) + months + 0)).
+    replace (12 * y + (m - 1) + months + 0) with (12 * y + (m - 1) + months) by lia.
+    pose proof (month_start_mono months (12 * y + (m - 1)) ltac:(lia)) as Mo.
+    assert (d <= 15) by (destruct (Z.ltb_spec d 15); [lia|]; destruct (Z.eqb_spec d 15); [lia|discriminate]).
+    lia.
+  - rewrite dfc_day. fold (month_start (12 * y + (m - 1) + months + 1)).
+    pose proof (month_start_mono (months + 1) (12 * y + (m - 1)) ltac:(lia)) as Mo.
+    replace (12 * y + (m - 1) + (months + 1)) with (12 * y + (m - 1) + months + 1) in Mo by lia.
+    lia.
+Qed.
+
+Theorem period_length_zero : forall now, get_period_length now 0 = Some 0.
+Proof. reflexivity. Qed.
+
+Theorem period_length_nonneg : forall now months len,
+  get_period_length now months = Some len -> 0 <= len.
+Proof.
+  intros now months len H. destruct (Z.eq_dec months 0) as [->|Hne].
+  - rewrite period_length_zero in H. inversion H. lia.
+  - assert (0 <= months).
+    { unfold get_period_length in H. destruct (Z.ltb_spec months 0); [discriminate|lia]. }
+    pose proof (period_length_pos now months len ltac:(lia) H). lia.
+Qed.
+
+(* the lock-up ends at 14:00:00 UTC *)
+Theorem period_end_hour : forall now months len, months <> 0 ->
+  get_period_length now months = Some len -> (now + len) mod 86400 = 14 * 3600.
+Proof.
+  intros now months len Hm H. unfold get_period_length in H.
+  destruct (months <? 0); [discriminate|]. destruct (Z.eqb_spec months 0); [contradiction|].
+  destruct (civil_from_days (now / DAY)) as [[y m] d].
+  apply some_eq in H; subst len. unfold DAY, PAY_SECS.
+  match goal with |- (now + (?a * 86400 + 14 * 3600 - now)) mod 86400 = _ => generalize a; intros a' end.
+  lia.
+Qed.
+
+Lemma cfd_of_parts : forall era yoe doy0, 0 <= yoe <= 399 -> 0 <= doy0 <= 364 ->
+  civil_from_days (era * 146097 + (yoe * 365 + yoe / 4 - yoe / 100 + doy0) - 719468) =
+  (let mp := (5 * doy0 + 2) / 153 in
+   let m := if mp <? 10 then mp + 3 else mp - 9 in
+   (if m <=? 2 then yoe + era * 400 + 1 else yoe + era * 400, m, doy0 - (153 * mp + 2) / 5 + 1)).
+Proof.
+  intros era yoe doy0 Hy Hd. unfold civil_from_days. cbv zeta.
+  set (doe := yoe * 365 + yoe / 4 - yoe / 100 + doy0).
+  replace (era * 146097 + doe - 719468 + 719468) with (era * 146097 + doe) by lia.
+  assert (Hdoe : 0 <= doe < 146097) by (subst doe; lia).
+  assert (E1 : (era * 146097 + doe) / 146097 = era) by lia. rewrite E1.
+  replace (era * 146097 + doe - era * 146097) with doe by lia.
+  assert (E2 : (doe - doe / 1460 + doe / 36524 - doe / 146096) / 365 = yoe) by (subst doe; lia).
+  rewrite E2.
+  replace (doe - (365 * yoe + yoe / 4 - yoe / 100)) with doy0 by (subst doe; lia).
+  reflexivity.
+Qed.
+
+(* the 1st and the 15th of every month are mapped back to themselves *)
+Lemma civil_of_payday : forall y m d, 1 <= m <= 12 -> d = 1 \/ d = 15 ->
+  civil_from_days (days_from_civil y m d) = (y, m, d).
+Proof.
+  intros y m d Hm Hd.
+  assert (m = 1 \/ m = 2 \/ m = 3 \/ m = 4 \/ m = 5 \/ m = 6 \/ m = 7 \/ m = 8 \/ m = 9 \/ m = 10 \/ m = 11 \/ m = 12) as C by lia.
+  destruct C as [C|[C|[C|[C|[C|[C|[C|[C|[C|[C|[C|C]]]]]]]]]]]; destruct Hd as [D|D]; subst m d;
+    unfold days_from_civil; cbv zeta; cbn -[Z.div Z.mul Z.add Z.sub civil_from_days];
+    (rewrite cfd_of_parts; [|lia|cbn; lia]); cbv zeta;
+    repeat (match goal with |- context [if ?c then _ else _] =>
+              let v := eval vm_compute in c in change c with v; cbv iota end);
+    repeat f_equal; lia.
+Qed.
+
+(* the lock-up ends on a payday: at 14:00:00 UTC on the 15th of the month that is
+   [months] months ahead when claimed before the 15th 14:00, otherwise on the 1st
+   of the month after that *)
+Theorem period_end_payday : forall now months len y m d, months <> 0 ->
+  get_period_length now months = Some len ->
+  civil_from_days (now / 86400) = (y, m, d) ->
+  let early := (d <? 15) || ((d =? 15) && ((now mod 86400) / 3600 <? 14)) in
+  let mi := 12 * y + (m - 1) + months + (if early then 0 else 1) in
+  (now + len) mod 86400 = 14 * 3600 /\
+  civil_from_days ((now + len) / 86400) = (mi / 12, mi mod 12 + 1, if early then 15 else 1).
+Proof.
+  intros now months len y m d Hm H C. cbv zeta.
+  split; [exact (period_end_hour now months len Hm H)|].
+  unfold get_period_length in H.
+  destruct (months <? 0); [discriminate|]. destruct (Z.eqb_spec months 0); [contradiction|].
+  unfold DAY, PAY_SECS in H. rewrite C in H.
+  destruct ((d <? 15) || ((d =? 15) && (now mod 86400 / 3600 <? 14))); apply some_eq in H; subst len.
+  - set (mi := 12 * y + (m - 1) + months + 0).
+    set (T := days_from_civil (mi / 12) (mi mod 12 + 1) 15).
+    assert (E : (now + (T * 86400 + 14 * 3600 - now)) / 86400 = T) by lia. rewrite E.
+    apply civil_of_payday; [lia|right; reflexivity].
+  - set (mi := 12 * y + (m - 1) + months + 1).
+    set (T := days_from_civil (mi / 12) (mi mod 12 + 1) 1).
+    assert (E : (now + (T * 86400 + 14 * 3600 - now)) / 86400 = T) by lia. rewrite E.
+    apply civil_of_payday; [lia|left; reflexivity].
+Qed.
+End Calendar.
+
+(* every claim uses a non-negative lock-up length: the guard of [run_inv] holds for claims *)
+Lemma claim_op_ok : forall now r c months, op_ok (Claim now r c months) = true.
+Proof.
+  intros now r c months. unfold op_ok, op_len.
+  destruct (get_period_length now months) as [len|] eqn:E; [|reflexivity].
+  apply Z.leb_le. exact (period_length_nonneg now months len E).
+Qed.
+
+(** * The bank refuses to move locked coins (modelled x/bank) *)
+
+Lemma total_of_nonneg : forall c d, (forall d' x, In (d', x) c -> 0 < x) -> 0 <= total_of d c.
+Proof.
+  induction c as [|[d0 x0] r IH]; intros d Hp; cbn [total_of]; [lia|].
+  pose proof (Hp d0 x0 (or_introl eq_refl)).
+  specialize (IH d (fun d' x Hin => Hp d' x (or_intror Hin))).
+  destruct (Nat.eqb d0 d); lia.
+Qed.
+
+Lemma bsub_within : forall c s t a s', (forall d x, In (d, x) c -> 0 < x) ->
+  bsub s t a c = Some s' ->
+  forall d, 0 < total_of d c -> total_of d c <= bal s a d - locked s a t d.
+Proof.
+  induction c as [|[d0 x0] r IH]; intros s t a s' Hp H d Hd; cbn [total_of] in *; [lia|].
+  cbn [bsub] in H. destruct (bsub1 s t a d0 x0) as [s1|] eqn:E; [|discriminate].
+  unfold bsub1 in E.
+  destruct ((locked s a t d0 <=? bal s a d0) && (x0 <=? bal s a d0 - locked s a t d0)) eqn:G; [|discriminate].
+  apply andb_prop in G. destruct G as [G1 G2]. apply Z.leb_le in G1. apply Z.leb_le in G2.
+  inversion E; subst s1; clear E.
+  assert (Hp' : forall d' x, In (d', x) r -> 0 < x) by (intros d' x Hin; exact (Hp d' x (or_intror Hin))).
+  pose proof (total_of_nonneg r d Hp') as Hn.
+  specialize (IH _ _ _ _ Hp' H d).
+  rewrite locked_set_bal in IH. cbn [bal set_bal] in IH. unfold upd2 in IH. rewrite Nat.eqb_refl in IH. cbn [andb] in IH.
+  destruct (Nat.eqb_spec d0 d) as [->|Hne].
+  - rewrite Nat.eqb_refl in IH. destruct (Z.eq_dec (total_of d r) 0); lia.
+  - destruct (Nat.eqb_spec d d0); [congruence|]. apply IH. lia.
+Qed.
+
+(* a transfer by an account goes through only within balance minus LockedCoins at the
+   block time: together with unlock_exact, the reward cannot be spent before now + len *)
+Theorem spend_within_unlocked : forall e s now a c s',
+  step e s (Spend now a c) = Ok s' tt ->
+  forall d, 0 < amount_of d c -> amount_of d c <= bal s a d - locked s a now d.
+Proof.
+  intros e s now a c s' H d Hd. cbn [step] in H.
+  destruct (in_range e a); cbn [negb] in H; [|discriminate].
+  assert (forall s1, bsend s now a (sink e) c = Some s1 -> amount_of d c <= bal s a d - locked s a now d) as Hb.
+  { intros s1 Hs. unfold bsend in Hs. destruct (coins_valid c) eqn:V; cbn [negb] in Hs; [|discriminate].
+    destruct (bsub s now a c) as [s2|] eqn:B; [|discriminate].
+    rewrite <- (valid_total_amount c None d V) in *.
+    exact (bsub_within c s now a s2 (fun d' x Hin => valid_entries_pos c None d' x V Hin) B d Hd). }
+  destruct (kind s a); try discriminate;
+    (destruct (bsend s now a (sink e) c) as [s1|] eqn:Hs; [|discriminate]); exact (Hb _ eq_refl).
+Qed.
